@@ -16,3 +16,15 @@ claim("C02", "DESIGN.md §4 C02",
 claim("C07", "DESIGN.md §4 C07",
       "All packings of up to 3 (thorough 4) undelegations/redelegations of one delegator (plus a second delegator) into blocks, followed by up to two block steps and a slash of each validator by 1/3, 0.5 or 1, are executed; on the slash transition every pending unbonding entry, the fee-collector and custody deltas are compared exactly with the reference, untouched positions must keep their shares, and destination positions of pending redelegations are compared with g*value - f*amount. Two genuine defects are reported as KNOWN-FINDING through quantitative mechanism classifiers; anything else is a violation.",
       "Trusted: as C01. Value tolerance 1 + 1e-17*T + one unit per pending entry. The classifiers accept only failures whose share movements equal the code's burn mechanism for exactly floor(f*amount) (or f*merged-record total).")
+
+claim("C04", "DESIGN.md §4 C04",
+      "From seed states whose share price differs from 1 (real take-rate deductions and slashes), every sequence of up to 3 (thorough 5) user transactions, optionally interleaved with one slash (1/3, 0.5, 1) and one block, is executed; on each successful user transaction the exact rational value of every position before/after is compared: the actor's moves by the requested amount, every other position by nothing, within 1 + 1e-17*T; reported balance growth of a deposit never exceeds the deposit; reported values never sum to more than the staked total plus one unit per position. Four dust/degenerate-state defects are reported as KNOWN-FINDING through call-site precondition classifiers.",
+      "Trusted: as C01. Values are recomputed from stored shares with big.Rat (no LegacyDec rounding in the observer). Classifiers are predicates on the pre-state of the failing transaction (delegator-share total < 1, orphan validator shares, > 100 tokens per share, asset share total 0 with positive staked total).")
+
+claim("C06", "DESIGN.md §4 C06",
+      "From three seed states (uneven stake in two assets over three validators, matured and pending redelegations, a prior take-rate step, a 1e30 position) every slash of every validator by {0.01%,1%,5%,1/3,50%,99%,100%}, alone, twice in a row, and after up to two user transactions and a block, is executed; each position's exact value is compared with (1-f)*g*value resp. g*value, per-validator sums with g*sum, the staked total must not move and custody may drop only by what pending unbondings forward.",
+      "Trusted: as C01. Destination positions of pending redelegations are C07's; states where an asset's share total is 0 (everything slashed by 100%) are excluded from the proportionality check as DESIGN §4 C06 states.")
+
+claim("C08", "DESIGN.md §4 C08",
+      "Histories that manipulate the destination of a pending redelegation (partial/complete undelegation, onward redelegation, slash of the destination first, governance deletion of a drained asset) followed by one or two slashes of any validator (including one without alliance stake) are enumerated; the callback must return nil without panic, leave the rebalance flag set and have completed every pending-unbonding slash. One scenario calls the hook directly outside a transaction branch, a second one goes through the real StakingKeeper.Slash of a full-pipeline world and reads the swallowed error from a capturing logger.",
+      "Trusted: as C01; full-pipeline world additionally relies on harness-built VoteInfos. Reward-pool shortfalls are excluded here (no reward inflow) and decided under C12.")
